@@ -1,6 +1,7 @@
 (* Proofs/SelectorFacts.v — lemmas about Model/Selector.v and Model/SelectorList.v *)
 From Coq Require Import List NArith ZArith Bool Arith Lia.
-From CssV Require Import Base.Regex Base.Chars Base.Tokens Gen.GenLex Gen.GenSelector Model.Tokenizer Model.Selector Model.SelectorList.
+From CssV Require Import Base.Regex Base.Chars Base.Tokens Gen.GenLex Gen.GenSelector Model.Tokenizer Model.Selector Model.SelectorList
+  Model.SelectorRender.
 Import ListNotations.
 Local Open Scope N_scope.
 
@@ -19,6 +20,35 @@ Lemma str_eqb_sym a b : str_eqb a b = str_eqb b a.
 Proof.
   revert b; induction a as [|x a IH]; intros [|y b]; cbn; try reflexivity.
   rewrite N.eqb_sym. f_equal. apply IH.
+Qed.
+
+(* ------------------------------------------- the generated tables, re-checked *)
+(* the truth table computed by Python's `in` is the substring test on the generated strings *)
+Lemma has_word_is_infix w e : has_word w e = is_infix (word_str w) (exp_str e).
+Proof. destruct w, e; vm_compute; reflexivity. Qed.
+
+(* the enum is injective on strings, so comparing constructors is comparing strings *)
+Lemma exp_eqb_str a b : exp_eqb a b = str_eqb (exp_str a) (exp_str b).
+Proof. destruct a, b; vm_compute; reflexivity. Qed.
+
+(* the finite spelling tables the harness sends (ENTRY 163) denote spellings that satisfy [sp_ok]
+   whenever the executable check [fsp_ok] says so *)
+Lemma lookup_all {A} (Q : A -> bool) (l : list (list nat * A)) d p :
+  forallb (fun e => Q (snd e)) l = true -> Q d = true -> Q (lookup l d p) = true.
+Proof.
+  intros Hl Hd. induction l as [|[k v] l IH]; cbn; [exact Hd|].
+  cbn in Hl. apply andb_true_iff in Hl as [Hv Hl]. destruct (path_eqb k p); [exact Hv|apply IH; exact Hl].
+Qed.
+
+Lemma fsp_ok_sound f : fsp_ok f = true -> sp_ok (spelling_of f).
+Proof.
+  unfold fsp_ok. intro H.
+  apply andb_true_iff in H as [H H5]. apply andb_true_iff in H as [H H4].
+  apply andb_true_iff in H as [H H3]. apply andb_true_iff in H as [H1 H2].
+  intro p. unfold spelling_of. cbn [fill notw descw]. repeat split.
+  - apply (lookup_all (forallb filler_ok)); [exact H1|reflexivity].
+  - apply (lookup_all notw_ok); [exact H2|exact H4].
+  - apply (lookup_all vok); [exact H3|exact H5].
 Qed.
 
 (* ============================================================ SelectorList *)
